@@ -3,9 +3,9 @@
 package main
 
 import (
-	"regexp"
 	"fmt"
 	gotypes "go/types"
+	"regexp"
 	"sort"
 	"strings"
 
@@ -266,7 +266,38 @@ func c20(g *Gen) {
 				}
 			}
 		}
-		oc := []string{"predicate-oracle"}
+		// the predicates are total: asked about the entry of a function, variable or constant, or about a
+		// type that was only looked up, they answer (false) instead of dying
+		for _, pk := range u {
+			for _, tbl := range []map[string]*types.Type{pk.Functions, pk.Variables, pk.Constants} {
+				for name, obj := range tbl {
+					func() {
+						defer func() {
+							if r := recover(); r != nil {
+								problems = append(problems, fmt.Sprintf("a predicate panics on the declaration %s.%s: %v", pk.Path, name, r))
+							}
+						}()
+						obj.IsAssignable()
+						obj.IsPrimitive()
+						obj.IsAnonymousStruct()
+						c20comparable(obj)
+					}()
+				}
+			}
+		}
+		func() {
+			defer func() {
+				if r := recover(); r != nil {
+					problems = append(problems, fmt.Sprintf("a predicate panics on a type that was looked up and never loaded: %v", r))
+				}
+			}()
+			ph := u.Type(types.Name{Package: "ex.test/never/loaded", Name: "T"})
+			ph.IsAssignable()
+			ph.IsPrimitive()
+			ph.IsAnonymousStruct()
+			c20comparable(ph)
+		}()
+		oc := []string{"predicate-oracle", "predicates-on-declarations-and-placeholders"}
 		for k := range npos {
 			oc = append(oc, "positive-"+k)
 		}
